@@ -311,6 +311,14 @@ class Engine:
             else:
                 return self.fresh('div', st, t)
         elif op in ('<<', '>>', '&', '|', '^'):
+            if op in ('<<', '>>') and self.cfg.get('check_shifts') and node is not None:
+                # the shift distance must be smaller than the width of the (promoted) left operand
+                width = 64 if ('long' in bt) else 32
+                held = entails(st.cons, ge(b, 0)) and entails(st.cons, le(b, width - 1))
+                self.obligations.append(Obligation(
+                    self.root, 'shift', 'the shift distance is smaller than the %d bits of the shifted operand' % width,
+                    held, func.loc(node) if func is not None else '',
+                    '' if held else 'distance %r on the path [%s]' % (b, '; '.join(st.trail[-5:]))))
             if a.is_const() and b.is_const():
                 x, y = int(a.c), int(b.c)
                 r = lin({'<<': x << y, '>>': x >> y, '&': x & y, '|': x | y, '^': x ^ y}[op])
@@ -568,6 +576,8 @@ class Engine:
                 return
             self.access(st, lv[1], 1, 'element', node, func, write=True)
             self.log_write(st, ('put', lv[1], v))
+            if self.cfg.get('on_store'):
+                self.cfg['on_store'](self, st, lv[1], v, node, func)
             # a write to the region invalidates every remembered cell of it (may alias), then remember this one
             for key in [k for k in st.cells if k[0] == lv[1].region]:
                 del st.cells[key]
@@ -2195,6 +2205,13 @@ def m_string_method(eng, n, st, func, want):
             eng.string_len(s1, ov.name)
             s1.fields[(ov.name + '.data', 'strlen')] = eng.string_len(s1, ov.name)
             out.append((Ptr(ov.name + '.data', 0), s1))
+        elif short in ('operator[]', 'at') and len(args) == 1:
+            ln = eng.string_len(s1, ov.name)
+            for (k,), s2 in _ev_all(eng, args[:1], s1, func):
+                if isinstance(k, Lin):
+                    out.append((('lvptr', Ptr(ov.name + '.data', k)), s2))
+                else:
+                    out.append((UNKNOWN, s2))
         elif short in ('begin', 'cbegin'):
             eng.string_len(s1, ov.name)
             out.append((Ptr(ov.name + '.data', 0), s1))
